@@ -65,7 +65,10 @@ package common
 //@   ints wrap
 //@   safety on
 //@   modifies nothing
+//@   ensures[sorted-copy]     __sorted(s) && __perm(s, input) && l == len(input)
+//@   ensures[between-middles] forall lo int64, hi int64 :: len(input) > 0 && lo <= s[(len(input)-1)/2] && s[len(input)/2] <= hi && -4611686018427387904 <= lo && hi <= 4611686018427387903 ==> lo <= median && median <= hi
 //@   aux[empty] len(input) == 0 ==> median == 0
+//@   aux[odd]   len(input) % 2 == 1 ==> median == s[len(input)/2]
 
 // Hex encoding. HexDec/HexOK are, by definition, what encoding/hex.DecodeString returns; Enc is what
 // EncodeToString returns ("0X" followed by upper-case hex digits).
